@@ -209,7 +209,7 @@ def check_scan(st, res, rule):
                 desc.append(it)
                 if re.match(r"^IntoIterator@\w+::into_iter\(Range::Range\{const\(0_usize\), (slice|Vec)::len\((Deref@Oset::deref\()?param1\.machine\.states\)?\)\}\)$", it):
                     okl = True
-                if re.match(r"^IntoIterator@\w+::into_iter\((Deref@Oset::deref\()?param1\.machine\.states\)?\[param\d+\.0\]\.items\)$", it):
+                if re.match(r"^IntoIterator@\w+::into_iter\((slice::iter\()?(Deref@Oset::deref\()?(Deref@Oset::deref\()?param1\.machine\.states\)?\[param\d+\.0\]\.items\)?\)?\)$", it):
                     okl = True
                 if re.match(r"^IntoIterator@\w+::into_iter\(Iterator::enumerate\(slice::iter\((Deref@Oset::deref\()?param1\.machine\.states\)?\)\)\)$", it):
                     okl = True
